@@ -14,6 +14,7 @@ Theorem C17_int_wrap : C17_int_wrap_stmt.                           Proof. exact
 (** float clause for wrapped, under the rounded interpretation of lib/FlOps.v: congruent and in range up to a few ulps of |x| *)
 Theorem C17_float_wrapped : C17_float_wrapped_stmt.                 Proof. exact C17_fl.C17_float_wrapped. Qed.
 Theorem C17_float_wrapped_between : C17_float_wrapped_between_stmt. Proof. exact C17_fl.C17_float_wrapped_between. Qed.
+Theorem C17_float_pingpong : C17_float_pingpong_stmt.               Proof. exact C17_fl.C17_float_pingpong. Qed.
 Theorem C17_repaired : C17_repaired_stmt.                           Proof. exact C17_int.C17_repaired. Qed.
 
 Print Assumptions C17_clamp.
@@ -25,6 +26,7 @@ Print Assumptions C17_int_wrap.
 Print Assumptions C17_repaired.
 Print Assumptions C17_float_wrapped.
 Print Assumptions C17_float_wrapped_between.
+Print Assumptions C17_float_pingpong.
 
 (** the hypotheses of the integer theorems are satisfiable (i8, overflow checks on), at the inputs that used to overflow *)
 Require Import ZArith.
